@@ -100,6 +100,9 @@ func ChildMain() {
 	leaked, fds := settle(4*time.Second, baseFD)
 	res.LeakedGo = leaked
 	res.LeakedFDs = fds - baseFD
+	if res.LeakedFDs < 0 {
+		res.LeakedFDs = 0
+	}
 	if res.LeakedFDs != 0 {
 		res.LeakedGo = append(res.LeakedGo, fmt.Sprintf("fds: %v", fdTargets()))
 	}
